@@ -42,7 +42,10 @@ def config_class(d, q, e):
 
 
 def tables_for(rnd, d, q, e, n):
-    alphabet = ["", "x", d, q, e, " ", "\n", "\r", "x" + d, q + q, e + q, "x y", " x", e + e, "x" + e, "\r\n", "a\rb", "\n" + q, d + d, q + "x" + q, "x" + q]
+    alphabet = ["", "x", d, q, e, " ", "\n", "\r", "x" + d, q + q, e + q, "x y", " x", e + e, "x" + e, "\r\n", "a\rb", "\n" + q, d + d, q + "x" + q, "x" + q,
+                # characters readers of other formats treat specially: the byte order mark (U+FEFF is a legal first character of a cell), characters
+                # str.splitlines() breaks at, NUL-free control characters, non-ASCII
+                "\ufeff", "\ufeffx", "x\ufeff", "\u2028", "\x85x", "\x0b", "x\x0c", "\x1c", "\xa0", "é\u20ac"]
     tables = [[[a]] for a in alphabet]
     tables += [[[a, b]] for a in alphabet[:9] for b in alphabet[:6]]
     for _ in range(n):
@@ -55,7 +58,7 @@ def run(ctx):
     rnd = ctx.rnd
     ctx.rule = ("every combination of item delimiter (14 values incl. TAB, blank, CR, LF, backslash, quote characters) x all 20 quote characters x 2 escape characters x "
                 "2 quoting modes x 4 line delimiter settings (quick: one line delimiter per combination, rotating) that DataFormat.validate accepts, x tables of 0-5 rows x 1-4 columns over an "
-                "alphabet built from the configured special characters, blanks, CR, LF, CRLF; written by DelimitedRowWriter and read by delimited_rows (and through "
+                "alphabet built from the configured special characters, blanks, CR, LF, CRLF, the byte order mark, other line-break-like and non-ASCII characters; written by DelimitedRowWriter and read by delimited_rows (and through "
                 "cutplace.Writer / cutplace.rows for a sample); distinct = distinct (configuration, table); non-trivial = table has at least one cell")
     from cutplace import data, errors, rowio
 
